@@ -57,11 +57,27 @@ func storeVars(vm *ds.Context, vars []VarDef) {
 		if v.InProg {
 			continue
 		}
+		var val *ds.VMValue
 		if v.Expr != "" {
-			vm.Attrs.Store(v.Name, ds.NewComputedVal(v.Expr))
+			val = ds.NewComputedVal(v.Expr)
 		} else {
-			vm.Attrs.Store(v.Name, ds.NewIntVal(ds.IntType(v.Val)))
+			val = ds.NewIntVal(ds.IntType(v.Val))
 		}
+		if v.Host {
+			// the host's own table, consulted when the VM does not know the name
+			table, _ := vm.CustomFlag["c14host"].(map[string]*ds.VMValue)
+			if table == nil {
+				table = map[string]*ds.VMValue{}
+				if vm.CustomFlag == nil {
+					vm.CustomFlag = map[string]any{}
+				}
+				vm.CustomFlag["c14host"] = table
+				vm.GlobalValueLoadFunc = func(name string) *ds.VMValue { return table[name] }
+			}
+			table[v.Name] = val
+			continue
+		}
+		vm.Attrs.Store(v.Name, val)
 	}
 }
 
